@@ -119,6 +119,16 @@ type In struct{ h *H }
 
 func (i *In) K(r, code int64) int64 { return i.h.K(r, code) }
 
+// Rid is the id of the request this object belongs to.
+func (i *In) Rid() int64 {
+	i.h.c.mu.Lock()
+	defer i.h.c.mu.Unlock()
+	if i.h.c.Req == nil {
+		return -1
+	}
+	return i.h.c.Req.ID
+}
+
 // H is the observer a call's rules talk to.  It is created per call and is
 // immutable; everything dynamic goes through the scheduler (simrt.Emit, Gate).
 type H struct {
@@ -499,7 +509,7 @@ func (h *H) Data() map[string]interface{} {
 		if rd.Ret == RetElse || rd.Ret == RetElseIf {
 			d[fmt.Sprintf("VF%d", id)] = false
 		}
-		if rd.Ret == RetForRange {
+		if rd.Ret == RetForRange || rd.Ret == RetTopLoop {
 			d[fmt.Sprintf("RS%d", id)] = []int64{4, 5}
 		}
 		if needVA {
